@@ -7,7 +7,7 @@ STR = ["stralloc_catb.c", "stralloc_opyb.c", "stralloc_pend.c", "stralloc_cats.c
 
 def obligations(tier):
     if tier == "quick":
-        grid = [{"R": r, "P": p, "STRICT": 1, "CH": c} for (r, p, c) in ((3, 0, 0), (5, 0, 1), (4, 1, 0))] + [{"R": 4, "P": 1, "STRICT": 0, "CH": 1}]
+        grid = [{"R": r, "P": p, "STRICT": 1, "CH": c} for (r, p, c) in ((3, 0, 0), (5, 0, 1), (4, 1, 0), (6, 0, 1))] + [{"R": 4, "P": 1, "STRICT": 0, "CH": 1}]   # R=6: two complete reports in one read
     else:
         grid = [{"R": r, "P": p, "STRICT": 1, "CH": (r + p) % 2} for r in (3, 5, 6, 7) for p in (0, 1, 2)] + \
                [{"R": r, "P": p, "STRICT": 0, "CH": p} for r in (5, 7) for p in (0, 1)]
